@@ -3,6 +3,7 @@ package main
 import (
 	"encoding/json"
 	"fmt"
+	"go/ast"
 	"go/token"
 	"os"
 	"path/filepath"
@@ -56,6 +57,15 @@ type Run struct {
 }
 
 func NewRun(p *Prog, property, tier string) *Run {
+	curProg = p
+	factCallExpand = func(call *ast.CallExpr, val bool) []condFact {
+		info := p.InfoAt(call.Pos())
+		if info == nil {
+			return nil
+		}
+		return p.expandBoolFact(info, call, val)
+	}
+
 	return &Run{P: p, Property: property, Tier: tier, Assume: map[string]bool{}, Extra: map[string]interface{}{}, seen: map[string]bool{}}
 }
 
